@@ -21,11 +21,16 @@ use crate::hook::{K_FETCH_ADD, K_LOAD, K_STORE, O_ACQREL, O_ACQUIRE, O_RELEASE, 
 /// maximal number of threads (arrays); the number in use is `VH_TN`
 pub const T: usize = 4;
 pub static mut VH_TN: usize = 2;
+/// number of guessed events per thread in use (<= M); loops are bounded by it
+pub static mut VH_TM: usize = M;
 /// events per thread
-pub const M: usize = 7;
+pub const M: usize = 8;
 pub const NLOC: usize = 4;
 pub const LOC_ITER: u8 = 3;
+/// the wrapped iterator's `next` is NOT atomic: it reads the position (K_ITER) and, if an element exists,
+/// writes the advanced position back (K_ITERW); two overlapping calls both read the same position
 pub const K_ITER: u32 = 3;
+pub const K_ITERW: u32 = 4;
 pub const NO_PRED: u8 = 255;
 
 #[derive(Clone, Copy)]
@@ -90,34 +95,32 @@ fn small(v: usize) -> bool {
 }
 
 fn step_after(kind: u32, operand: usize, before: usize, len: usize) -> usize {
-    if kind == K_LOAD {
+    let _ = len;
+    if kind == K_LOAD || kind == K_ITER {
         before
-    } else if kind == K_STORE {
+    } else if kind == K_STORE || kind == K_ITERW {
         operand
-    } else if kind == K_FETCH_ADD {
-        before.wrapping_add(operand)
-    } else if before < len {
-        before + 1
     } else {
-        before
+        before.wrapping_add(operand)
     }
 }
 
 /// Guesses the trace and validates it. `total` = number of events of all threads.
-pub fn guess_and_validate(len: usize, hb: bool, nthreads: usize) {
+pub fn guess_and_validate(len: usize, hb: bool, nthreads: usize, tm: usize) {
     unsafe {
         VH_TN = nthreads;
+        VH_TM = tm;
         VH_TLEN = len;
         let mut total = 0usize;
         let mut t = 0;
         while t < VH_TN {
             let c: usize = kani::any();
-            kani::assume(c <= M);
+            kani::assume(c <= VH_TM);
             VH_TCNT[t] = c;
             VH_TCUR[t] = 0;
             total += c;
             let mut j = 0;
-            while j < M {
+            while j < VH_TM {
                 if j < c {
                     let e = TEv {
                         ts: kani::any(),
@@ -152,8 +155,8 @@ pub fn guess_and_validate(len: usize, hb: bool, nthreads: usize) {
                     }
                     kani::assume((e.ts as usize) < total_bound());
                     kani::assume((e.loc as usize) < NLOC);
-                    kani::assume(e.kind <= K_ITER);
-                    kani::assume((e.kind == K_ITER) == (e.loc == LOC_ITER));
+                    kani::assume(e.kind <= K_ITERW);
+                    kani::assume((e.kind == K_ITER || e.kind == K_ITERW) == (e.loc == LOC_ITER));
                     kani::assume(small(e.operand) && small(e.before));
                     kani::assume(e.after == step_after(e.kind, e.operand, e.before, len));
                     if j > 0 {
@@ -169,7 +172,7 @@ pub fn guess_and_validate(len: usize, hb: bool, nthreads: usize) {
         let mut t = 0;
         while t < VH_TN {
             let mut j = 0;
-            while j < M {
+            while j < VH_TM {
                 if j < VH_TCNT[t] {
                     let e = VH_TEV[t][j];
                     kani::assume((e.ts as usize) < total);
@@ -177,7 +180,7 @@ pub fn guess_and_validate(len: usize, hb: bool, nthreads: usize) {
                     let mut u = t + 1;
                     while u < VH_TN {
                         let mut k = 0;
-                        while k < M {
+                        while k < VH_TM {
                             if k < VH_TCNT[u] {
                                 kani::assume(VH_TEV[u][k].ts != e.ts);
                             }
@@ -194,7 +197,7 @@ pub fn guess_and_validate(len: usize, hb: bool, nthreads: usize) {
         let mut t = 0;
         while t < VH_TN {
             let mut j = 0;
-            while j < M {
+            while j < VH_TM {
                 if j < VH_TCNT[t] {
                     let e = VH_TEV[t][j];
                     let mut found = e.pred == NO_PRED;
@@ -209,7 +212,7 @@ pub fn guess_and_validate(len: usize, hb: bool, nthreads: usize) {
                     let mut u = 0;
                     while u < VH_TN {
                         let mut k = 0;
-                        while k < M {
+                        while k < VH_TM {
                             if k < VH_TCNT[u] {
                                 let g = VH_TEV[u][k];
                                 if g.loc == e.loc && g.ts < e.ts {
@@ -234,7 +237,7 @@ pub fn guess_and_validate(len: usize, hb: bool, nthreads: usize) {
                         base[t] = base[t].wrapping_add(1);
                         let is_load = e.kind == K_LOAD;
                         let is_rmw = e.kind == K_FETCH_ADD;
-                        let is_iter = e.kind == K_ITER;
+                        let is_iter = e.kind == K_ITER || e.kind == K_ITERW;
                         let joins = (is_load || is_rmw) && acq(e.ord);
                         let mut x = 0;
                         while x < VH_TN {
@@ -281,7 +284,7 @@ pub fn guess_and_validate(len: usize, hb: bool, nthreads: usize) {
             let mut t = 0;
             while t < VH_TN {
                 let mut j = 0;
-                while j < M {
+                while j < VH_TM {
                     if j < VH_TCNT[t] {
                         let e = VH_TEV[t][j];
                         if e.loc as usize == l && (e.ts as usize) + 1 > best {
@@ -347,9 +350,9 @@ pub fn waited() -> bool {
         let mut t = 0;
         while t < VH_TN {
             let mut j = 0;
-            while j < M {
+            while j < VH_TM {
                 let mut k = j + 1;
-                while k < M {
+                while k < VH_TM {
                     if k < VH_TCNT[t] {
                         let a = VH_TEV[t][j];
                         let b = VH_TEV[t][k];
@@ -469,8 +472,8 @@ pub unsafe fn trace_access(cell: *mut usize, kind: u32, ord: u32, operand: usize
     e.before
 }
 
-/// Called by the trace probe for every `next` of the wrapped iterator; returns the probe position.
-pub fn iter_access() -> usize {
+/// Called by the trace probe at the start of `next`: reads the probe position.
+pub fn iter_read() -> usize {
     unsafe {
         let t = VH_TID;
         if VH_TSOLO || VH_TCUR[t] >= VH_TCNT[t] {
@@ -485,6 +488,24 @@ pub fn iter_access() -> usize {
         kani::assume(e.ord == 0 && e.op == VH_TOP);
         VH_TCUR[t] = j + 1;
         e.before
+    }
+}
+
+/// Called by the trace probe when `next` has produced an element: writes the advanced position back.
+pub fn iter_write(newpos: usize) {
+    unsafe {
+        let t = VH_TID;
+        if VH_TSOLO || VH_TCUR[t] >= VH_TCNT[t] {
+            kani::assume(VH_TSOLO_ALLOWED);
+            VH_TSOLO = true;
+            solo_access(LOC_ITER as usize, K_ITERW, newpos);
+            return;
+        }
+        let j = VH_TCUR[t];
+        let e = VH_TEV[t][j];
+        kani::assume(e.kind == K_ITERW && e.loc == LOC_ITER && e.operand == newpos);
+        kani::assume(e.ord == 0 && e.op == VH_TOP);
+        VH_TCUR[t] = j + 1;
     }
 }
 
@@ -523,8 +544,9 @@ macro_rules! tprobe {
         impl Iterator for $name {
             type Item = usize;
             fn next(&mut self) -> Option<usize> {
-                let p = iter_access();
+                let p = iter_read();
                 if p < self.len {
+                    iter_write(p + 1);
                     Some(p)
                 } else {
                     None
@@ -560,8 +582,8 @@ pub fn iter_race() -> (bool, bool) {
         let mut t = 0;
         while t < VH_TN {
             let mut j = 0;
-            while j < M {
-                if j < VH_TCNT[t] && VH_TEV[t][j].kind == K_ITER {
+            while j < VH_TM {
+                if j < VH_TCNT[t] && (VH_TEV[t][j].kind == K_ITER || VH_TEV[t][j].kind == K_ITERW) {
                     let e = VH_TEV[t][j];
                     if e.racy {
                         race = true;
@@ -571,13 +593,13 @@ pub fn iter_race() -> (bool, bool) {
                     while u < VH_TN {
                         if u != t {
                             let mut a = 0;
-                            while a < M {
+                            while a < VH_TM {
                                 let mut b = a + 1;
-                                while b < M {
+                                while b < VH_TM {
                                     if b < VH_TCNT[u] {
                                         let x = VH_TEV[u][a];
                                         let y = VH_TEV[u][b];
-                                        if x.kind == K_ITER && y.kind == K_ITER && x.op == y.op && x.ts < e.ts && e.ts < y.ts {
+                                        if x.loc == LOC_ITER && y.loc == LOC_ITER && x.op == y.op && x.ts < e.ts && e.ts < y.ts {
                                             overlap = true;
                                         }
                                     }
